@@ -28,6 +28,7 @@ var c18Templates = []string{
 	`script S { switch (random(3)) { case 0: c } }`,
 	`script S { L: goto(L) L2(global): end }`,
 	`script S { c("txt") d(format("a~b~c", "1_latin_rse", 30)) }`,
+	`script S { c(format("a~b", 30, "1_latin_rse")) }`,
 	`script S { c(format("a~b", fontId = "1_latin_rse", maxLineLength = 30, numLines = 2, cursorOverlapWidth = 1)) }`,
 	`script S { c(ascii"x", moves(a * 2 b, step_end)) }`,
 	`script S { poryswitch(V) { A { c } B: d _: e } }`,
@@ -48,7 +49,7 @@ var c18Templates = []string{
 	`script S { if (flag(A)) { if (flag(B)) { c } else { while (flag(C)) { d } } } e }`,
 }
 
-var c18EditWords = []string{"(", ")", "{", "}", "[", "]", ",", ":", "*", "=", "==", "!", "&&", "||", `"`, "`", "value()", "value(", "0", "-1", "99999999999999999999", "٣", "_", "poryswitch", "format", "case", "default", "if", "while", "continue", "break", "script", "text", "const", "global", "�", "\x00", "#"}
+var c18EditWords = []string{"(", ")", "{", "}", "[", "]", ",", ":", "*", "=", "==", "!", "&&", "||", `"`, "`", "value()", "value(", "0", "-1", "99999999999999999999", "٣", "_", "poryswitch", "format", "case", "default", "if", "while", "continue", "break", "script", "text", "const", "global", "�", "\x00", "#", `"bogus"`, `"TEST"`}
 
 // c18Tokens splits a template into its tokens (brackets and commas glued to words are split off).
 func c18Tokens(tpl string) []string {
@@ -137,6 +138,7 @@ func TestC18_Enum(t *testing.T) {
 							if k > i+1 {
 								try(with(toks, i+1, k-i-1))
 							}
+							try(with(toks, i, k-i+1)) // the whole group, brackets included
 							break
 						}
 					}
@@ -149,5 +151,5 @@ func TestC18_Enum(t *testing.T) {
 		}
 	}
 	st.Add("enumerated_one_edit_neighbours", int64(count))
-	st.Done(fmt.Sprintf("every single-token deletion, duplication, adjacent swap, truncation, bracket-group emptying, and replacement by / insertion of each of %d hostile words, of %d template programs (one per production), under %d option sets", len(c18EditWords), len(c18Templates), len(flagSets)), !t.Failed())
+	st.Done(fmt.Sprintf("every single-token deletion, duplication, adjacent swap, truncation, bracket-group emptying and removal, and replacement by / insertion of each of %d hostile words, of %d template programs (one per production), under %d option sets", len(c18EditWords), len(c18Templates), len(flagSets)), !t.Failed())
 }
